@@ -21,12 +21,6 @@ From BV Require gen.IncompleteTables.
 
 Inductive flow := FNormal | FExit | FReturn | FLoop.
 
-Fixpoint nonlast {A} (P : A -> Prop) (l : list A) : Prop :=
-  match l with
-  | [] => True
-  | x :: r => match r with [] => True | _ => P x /\ nonlast P r end
-  end.
-
 (** regenerated obligation: the floor of [execute_line]'s line count is at most one line *)
 Lemma floor_le_one : (gen.IncompleteTables.line_count_floor <= 1)%nat.
 Proof. vm_compute. lia. Qed.
